@@ -26,15 +26,17 @@ Definition as_int32 (v : arg) : option Z :=
   | _ => None
   end.
 
-(* --- asIndex(v, len, &result): None/omitted leaves result unchanged; a
-   negative value gets len added.  None (Coq) = error. *)
+(* --- asIndex(v, len, &result): None/omitted leaves result unchanged; an int
+   that fits a Go int has len added when negative; an int beyond the int range
+   becomes -1 (negative) or len (positive); a non-int is an error (None). *)
 Definition as_index (v : arg) (len : Z) (result : Z) : option Z :=
   match v with
   | ANone => Some result
-  | _ => match as_int32 v with
-         | None => None
-         | Some r => Some (if r <? 0 then wrap64 (r + len) else r)
-         end
+  | AInt z =>
+      if in_int64 z then Some (if z <? 0 then wrap64 (z + len) else z)
+      else if z <? 0 then Some (-1)
+      else Some len
+  | AOther => None
   end.
 
 Definition clamp0 (x len : Z) : Z := if x <? 0 then 0 else if x >? len then len else x.
@@ -51,18 +53,24 @@ Definition indices (start_ end_ : arg) (len : Z) : option (Z * Z) :=
       end
   end.
 
-(* --- the index part of slice(x, lo, hi, step_): n = x.Len() *)
-Definition slice_step (step_ : arg) : option Z :=
+(* --- the index part of slice(x, lo, hi, step_): n = x.Len().
+   The stride: exact when it fits 32 bits or is smaller than n in absolute
+   value; otherwise +-max(n, 1) (it selects the first element only, like any
+   stride of at least n); zero and non-ints are errors. *)
+Definition slice_step (n : Z) (step_ : arg) : option Z :=
   match step_ with
   | ANone => Some 1
-  | _ => match as_int32 step_ with
-         | None => None
-         | Some s => if s =? 0 then None else Some s
-         end
+  | AInt z =>
+      let step :=
+          if in_int64 z && (in_int32 z || ((- n <? z) && (z <? n))) then z
+          else let m := if n <? 1 then 1 else n in
+               if z <? 0 then wrap64 (- m) else m in
+      if step =? 0 then None else Some step
+  | AOther => None
   end.
 
 Definition slice_bounds (n : Z) (lo hi step_ : arg) : option (Z * Z * Z) :=
-  match slice_step step_ with
+  match slice_step n step_ with
   | None => None
   | Some step =>
       if step >? 0 then
@@ -164,15 +172,16 @@ Definition set_index {A} (xs : list A) (y : arg) (v : A) : outcome (list A) :=
 (* --- range values (library.go) *)
 Record rng := { r_start : Z; r_stop : Z; r_step : Z; r_len : Z }.
 
-(* rangeLen(start, stop, step): Go `/` truncates; all operations wrap *)
+(* rangeLen(start, stop, step): int(uint(stop-1-start)/uint(step) + 1) -- the difference is
+   reinterpreted as an unsigned 64-bit number before the division; all operations wrap *)
 Definition range_len (start stop step : Z) : outcome Z :=
   if step >? 0 then
     (if stop >? start
-     then Ok (wrap64 (wrap64 (Z.quot (wrap64 (wrap64 (stop - 1) - start)) step) + 1))
+     then Ok (wrap64 (wrapu64 (wrapu64 (wrap64 (wrap64 (stop - 1) - start)) / wrapu64 step + 1)))
      else Ok 0)
   else if step <? 0 then
     (if start >? stop
-     then Ok (wrap64 (wrap64 (Z.quot (wrap64 (wrap64 (start - 1) - stop)) (wrap64 (- step))) + 1))
+     then Ok (wrap64 (wrapu64 (wrapu64 (wrap64 (wrap64 (start - 1) - stop)) / wrapu64 (wrap64 (- step)) + 1)))
      else Ok 0)
   else Panic.
 
